@@ -652,3 +652,100 @@ pub fn replay_softmaxce(case: &Value, rep: &mut Report) {
         case,
     );
 }
+
+// ------------------------------------------------------------------------------------------------
+// Group "layerterm" (C01 / C02 with smooth and leaky activations, term mode)
+// ------------------------------------------------------------------------------------------------
+
+pub fn replay_layerterm(case: &Value, rep: &mut Report, rng: &mut Rng) {
+    let cfg0 = &case["cfg"];
+    let act = str_of(case, "act");
+    let kind = str_of(cfg0, "kind");
+    let (nx, nk, no) = (usize_of(case, "nx"), usize_of(case, "nk"), usize_of(case, "no"));
+    let id = format!("layerterm:{}:{}", cfg0, act);
+    rep.nontrivial(id.clone());
+    let mut cfg = cfg0.clone();
+    cfg["act"] = json!(act);
+    let u = |k: &str| cfg0[k].as_u64().unwrap() as usize;
+    for round in 0..3 {
+        let xs: Vec<f32> = (0..nx).map(|_| rng.unit() * 3.0 - 1.5).collect();
+        let ks: Vec<f32> = (0..nk).map(|_| rng.unit() * 2.0 - 1.0).collect();
+        let gs: Vec<f32> = (0..no).map(|_| rng.unit() * 2.0 - 1.0 + 0.05).collect();
+        let params = if kind == "dense" {
+            let (n_in, n_out) = (u("c"), u("f"));
+            let w: Vec<Vec<f32>> = (0..n_out).map(|i| ks[i * n_in..(i + 1) * n_in].to_vec()).collect();
+            let b: Vec<f32> = if bool_of(cfg0, "bias") { ks[n_out * n_in..].to_vec() } else { vec![0.0; n_out] };
+            json!({"W": w, "b": b})
+        } else {
+            let (f, c, kh, kw) = (u("f"), u("c"), u("kh"), u("kw"));
+            let mut it = ks.iter();
+            let k: Vec<Vec<Vec<Vec<f32>>>> = (0..f)
+                .map(|_| (0..c).map(|_| (0..kh).map(|_| (0..kw).map(|_| *it.next().unwrap()).collect()).collect()).collect())
+                .collect();
+            json!({"K": k})
+        };
+        let layer = match guarded(|| crate::layers::build_layer(&cfg, &params)) {
+            Ok(l) => l,
+            Err(e) => {
+                rep.mismatch("C02", "valid_configuration_rejected", &id, json!({"panic": e}), case);
+                return;
+            }
+        };
+        let x = if kind == "dense" { Tensor::single(xs.clone()) } else { crate::tensors::triple_rowmajor(&[u("c"), u("h"), u("w")], &xs) };
+        let out_shape = usizes(&case["out"]);
+        let g = if kind == "dense" { Tensor::single(gs.clone()) } else { crate::tensors::triple_rowmajor(&out_shape, &gs) };
+        let mut env = Env64::new();
+        for (i, v) in xs.iter().enumerate() { env.insert(format!("x{}", i + 1), *v as f64); }
+        for (i, v) in ks.iter().enumerate() { env.insert(format!("k{}", i + 1), *v as f64); }
+        for (i, v) in gs.iter().enumerate() { env.insert(format!("g{}", i + 1), *v as f64); }
+        rep.checks += 2;
+        let res = guarded(|| {
+            let (pre, post, max) = layer.forward(&x);
+            let (dx, dw, db) = layer.backward(&g, &x, &pre, &max);
+            (flat(&pre), flat(&post), flat(&dx), dw.map(|t| flat(&t)).unwrap_or_default(), db.map(|t| flat(&t)).unwrap_or_default())
+        });
+        let (pre, post, dx, dw, db) = match res {
+            Ok(r) => r,
+            Err(e) => {
+                rep.mismatch("C01", "term_mode_layer_panicked", &id, json!({"panic": e}), case);
+                return;
+            }
+        };
+        let near = |a: f32, b: f64, tol: f64| (a as f64 - b).abs() <= tol * b.abs().max(1.0);
+        let mut forward_ok = true;
+        for o in 0..no {
+            let (wp, wq) = (eval64(&case["pre"][o], &env), eval64(&case["post"][o], &env));
+            if !near(pre[o], wp, 1e-5) || !near(post[o], wq, 1e-5) {
+                forward_ok = false;
+                rep.mismatch("C02", &format!("forward_value_term_mode:{}", kind), &id, json!({"round": round, "output": o, "pre": [pre[o] as f64, wp], "post": [post[o] as f64, wq]}), case);
+                break;
+            }
+        }
+        if !forward_ok {
+            continue; // the expected gradients differentiate the specification's forward
+        }
+        let mut dk = dw.clone();
+        dk.extend(db.iter());
+        let mut bad: Option<Value> = None;
+        for i in 0..nx {
+            let w = eval64(&case["dx"][i], &env);
+            if !near(dx[i], w, 1e-4) {
+                bad = Some(json!({"round": round, "what": "input gradient", "index": i, "observed": dx[i], "derivative": w}));
+                break;
+            }
+        }
+        if bad.is_none() {
+            for j in 0..nk {
+                let w = eval64(&case["dk"][j], &env);
+                if j >= dk.len() || !near(dk[j], w, 1e-4) {
+                    bad = Some(json!({"round": round, "what": "parameter gradient", "index": j, "observed": dk.get(j), "derivative": w}));
+                    break;
+                }
+            }
+        }
+        if let Some(d) = bad {
+            rep.mismatch("C01", &format!("gradient_is_not_derivative_term_mode:{}:{}", kind, act), &id, d, case);
+            return;
+        }
+    }
+}
